@@ -9,17 +9,24 @@ Definition d_pname (s : sexp) : pname :=
   | [t; x] => if Z.eqb (d_Z t) 0 then NStr (d_str x) else NClass (d_N x)
   | _ => NNone
   end.
-Definition d_call (s : sexp) : call :=
+(* a group is sent either literally (a list of code points) or as an index (an atom) into
+   the table of group strings that accompanies the case: keeps the model input small *)
+Definition d_gstr (tab : list str) (s : sexp) : str :=
+  match s with
+  | A z => nth (Z.to_nat z) tab []
+  | L _ => d_str s
+  end.
+Definition d_call (tab : list str) (s : sexp) : call :=
   match d_items s with
-  | [t; g; n; k; f] => CReg (d_str g) (d_str n) (d_N k) (d_bool f)
-  | [t; g; nm; fl] => CFind (d_str g) (d_pname nm) (d_opt d_str fl)
-  | [t; g] => CEnum (d_str g)
+  | [t; g; n; k; f] => CReg (d_gstr tab g) (d_str n) (d_N k) (d_bool f)
+  | [t; g; nm; fl] => CFind (d_gstr tab g) (d_pname nm) (d_opt d_str fl)
+  | [t; g] => CEnum (d_gstr tab g)
   | _ => CEnum []
   end.
-Definition d_eps (s : sexp) : eps :=
-  d_list (fun e => ((d_str (d_nth e 0), d_str (d_nth e 1)), d_N (d_nth e 2))) s.
-Definition d_dflts (s : sexp) : dflts :=
-  d_list (fun e => (d_str (d_nth e 0), d_str (d_nth e 1))) s.
+Definition d_eps (tab : list str) (s : sexp) : eps :=
+  d_list (fun e => ((d_gstr tab (d_nth e 0), d_str (d_nth e 1)), d_N (d_nth e 2))) s.
+Definition d_dflts (tab : list str) (s : sexp) : dflts :=
+  d_list (fun e => (d_gstr tab (d_nth e 0), d_str (d_nth e 1))) s.
 Definition e_val (v : val) : sexp :=
   match v with
   | VBool b => L [A 0%Z; e_bool b]
@@ -102,7 +109,8 @@ Definition e_wres (r : res (option stream * option stream)) : sexp :=
 Definition dispatch (fn : Z) (a : sexp) : sexp :=
   match fn with
   | 1%Z =>
-    let '(outs, r) := run (d_eps (d_nth a 0)) (d_dflts (d_nth a 1)) [] (d_list d_call (d_nth a 2)) in
+    let tab := d_list d_str (d_nth a 3) in
+    let '(outs, r) := run (d_eps tab (d_nth a 0)) (d_dflts tab (d_nth a 1)) [] (d_list (d_call tab) (d_nth a 2)) in
     e_list (e_res e_val) outs
   | 2%Z => e_pair e_str e_str (splitext (d_str a))
   | 3%Z =>
@@ -146,9 +154,10 @@ Definition dispatch (fn : Z) (a : sexp) : sexp :=
     else if Z.eqb entry 1 then e_res e_str (to_bytes _ ws cd u d)
     else e_wres (write_file _ ws cd u d (d_wdst (d_nth a 4)))
   | 6%Z =>
-    let inst := d_eps (d_nth a 0) in
-    let df := d_dflts (d_nth a 1) in
-    let '(_, r) := run inst df [] (d_list d_call (d_nth a 2)) in
+    let tab := d_list d_str (d_nth a 9) in
+    let inst := d_eps tab (d_nth a 0) in
+    let df := d_dflts tab (d_nth a 1) in
+    let '(_, r) := run inst df [] (d_list (d_call tab) (d_nth a 2)) in
     let cd := codec_of (d_N (d_nth a 3)) in
     let entry := d_Z (d_nth a 4) in
     let fmt := d_pname (d_nth a 5) in
